@@ -423,4 +423,6 @@ def run(repo, tier):
          '(self.labels[0] == start_label) and (self.labels[-1] - self.labels[0] + 1) == self.nlabels',
          'nothing to do only if the labels are consecutive AND start at start_label'),
     ])
+    from .common import run_generic_pack
+    run_generic_pack(repo, res, PROP, ())
     return res
